@@ -722,19 +722,29 @@ ComponentNameMap createComponentNamesMap(const ComponentPtr &component)
     return nameMap;
 }
 
-std::vector<UnitsPtr> referencedUnits(const ModelPtr &model, const UnitsPtr &units)
+void collectReferencedUnits(const ModelPtr &model, const UnitsPtr &units, std::vector<UnitsPtr> &requiredUnits, std::vector<UnitsPtr> &path)
 {
-    std::vector<UnitsPtr> requiredUnits;
-
+    path.push_back(units);
     for (size_t index = 0; index < units->unitCount(); ++index) {
         const std::string ref = units->unitAttributeReference(index);
         if (!isStandardUnitName(ref)) {
             auto refUnits = model->units(ref);
-            auto requiredUnitsUnits = referencedUnits(model, refUnits);
-            requiredUnits.insert(requiredUnits.end(), requiredUnitsUnits.begin(), requiredUnitsUnits.end());
-            requiredUnits.push_back(refUnits);
+            // Do not follow a reference to units that are missing, or that are already being followed (cyclic units).
+            if ((refUnits != nullptr) && (std::find(path.begin(), path.end(), refUnits) == path.end())) {
+                collectReferencedUnits(model, refUnits, requiredUnits, path);
+                requiredUnits.push_back(refUnits);
+            }
         }
     }
+    path.pop_back();
+}
+
+std::vector<UnitsPtr> referencedUnits(const ModelPtr &model, const UnitsPtr &units)
+{
+    std::vector<UnitsPtr> requiredUnits;
+    std::vector<UnitsPtr> path;
+
+    collectReferencedUnits(model, units, requiredUnits, path);
 
     return requiredUnits;
 }
